@@ -16,8 +16,26 @@ FAMILIES = ["expr", "scope", "func", "loops", "records", "index", "hof", "multif
 
 
 def parse_out(stdout):
+    """lines of output as items; a block of multi-line JSON printed by `dump` (from a line "{" to the next line "}") becomes one
+    print item "D:" + the same JSON on a single line (a syntactic normalisation: the specification prints maps on one line)"""
     items = []
+    block = None
     for line in stdout.split("\n"):
+        if block is not None:
+            block.append(line)
+            if line == "}":
+                try:
+                    items.append(["p", "D:" + json.dumps(json.loads("\n".join(block)))])
+                except ValueError:
+                    items.append(["p", "D:unparsable"])
+                block = None
+            continue
+        if line == "{":
+            block = [line]
+            continue
+        if line == "{}":
+            items.append(["p", "D:{}"])
+            continue
         if line == "":
             continue
         if line.startswith("P:") or line == "(error)":
